@@ -122,7 +122,7 @@ pub fn run(args: &Args) {
                             for (k, want) in fields_from_json(&v["cuts"][i]) { if vcp_cut(c).get(&k) != Some(&want) { res.mismatch("violation", &format!("C11/cut/{k}"), format!("cut {} expected {:?}", i, want), small.clone()); } }
                         }
                         if framed_msg.as_ref() != Some(&m) { res.mismatch("violation", "C11/decode/frame_path_differs", "decode_message_contents and decode_volume_coverage_pattern disagree".into(), small.clone()); }
-                        if ncuts == 2 { res.sample(json!({"cuts": 2, "bytes_len": bytes.len(), "first_cut": fields_json(&vcp_cut(&m.elevations[0]))})); }
+                        if ncuts == 2 && !m.elevations.is_empty() { res.sample(json!({"cuts": 2, "bytes_len": bytes.len(), "first_cut": fields_json(&vcp_cut(&m.elevations[0]))})); }
                     }
                     Ok(Err(e)) => res.mismatch("violation", "C11/decode/rejects_wellformed", format!("{e:?}"), small.clone()),
                     Err(p) => res.mismatch("violation", "C11/decode/panic", p, small.clone()),
